@@ -35,8 +35,15 @@ pub struct Block {
 impl Block {
     /// field descriptor with struct names and identifiers erased
     pub fn erased(&self) -> Vec<(Kind, String, bool, bool, bool)> {
-        self.fields.iter().map(|f| (f.kind.clone(), f.serde.clone(), f.opt, f.vec, f.ty == "String")).collect()
+        self.fields.iter().map(|f| (f.kind.clone(), f.serde.clone(), f.opt, f.vec, f.ty == "String" && !type_ambiguous(&f.serde))).collect()
     }
+}
+
+/// a struct named after an element called `string` / `String` / … is indistinguishable from the `String`
+/// type in the rendered text; for such names the String-typing of a field is not compared
+pub fn type_ambiguous(name: &str) -> bool {
+    let n: String = name.chars().filter(|c| c.is_alphanumeric()).collect::<String>().to_lowercase();
+    n == "string"
 }
 
 pub fn qx(sort: SortBy, derive: &str) -> Options {
